@@ -197,9 +197,12 @@ def gen_iter_harness(chk):
 
 def run_numba_kernel(g):
     """the real numba_link on the sources in a FIXED order with its call of _numba_subnet_norecur intercepted.
-    Returns dict(calls=[(arrays before, loopcount, arrays after)], dests=[destination index or None per source])"""
+    Returns dict(calls=[(arrays before, loopcount, arrays after)], dests=[destination index or None per source],
+    dcands=[destination index or None, ...] the iteration order CPython gives the set of all candidates of these very
+    Point objects (same insertions in the same order as numba_link makes them), raised=numba_link raised
+    SubnetOversizeException).  g may carry 'max_size' (default 30, numba_link's own default)."""
     from trackpy.linking import subnetlinker as sl
-    from trackpy.linking.utils import Point
+    from trackpy.linking.utils import Point, SubnetOversizeException
     Point.reset_counter()
     R = math.sqrt(g['R2'])
     dps = [Point(1, (float(j),)) for j in range(g['nd'])]
@@ -208,6 +211,11 @@ def run_numba_kernel(g):
         p = Point(0, (float(i),))
         p.forward_cands = [(dps[d], math.sqrt(c)) for d, c in cs] + [(None, R)]
         sps.append(p)
+    dpos = {id(p): k for k, p in enumerate(dps)}
+    dset = set()
+    for p in sps:
+        dset.update([cand for cand, dist in p.forward_cands])
+    dcands = [None if d is None else dpos[id(d)] for d in list(dset)]
     calls = []
     real = sl._numba_subnet_norecur
 
@@ -217,13 +225,16 @@ def run_numba_kernel(g):
         calls.append((before, lc, [np.array(a).copy() for a in arrs]))
         return lc
     sl._numba_subnet_norecur = spy
+    raised = False
+    spl, dpl = [], []
     try:
-        spl, dpl = sl.numba_link(list(sps), g['nd'], R)
+        spl, dpl = sl.numba_link(list(sps), g['nd'], R, max_size=int(g.get('max_size', 30)))
+    except SubnetOversizeException:
+        raised = True
     finally:
         sl._numba_subnet_norecur = real
-    dpos = {id(p): k for k, p in enumerate(dps)}
     ok_order = len(spl) == len(sps) and all(a is b for a, b in zip(spl, sps))
-    return dict(calls=calls, dests=[None if d is None else dpos[id(d)] for d in dpl], same_order=ok_order)
+    return dict(calls=calls, dests=[None if d is None else dpos[id(d)] for d in dpl], same_order=ok_order, dcands=dcands, raised=raised)
 
 
 def exact_int(x):
@@ -234,8 +245,53 @@ def exact_int(x):
     return int(f)
 
 
-def gen_kernel_case(g, obs):
-    """-> (Coq term, python-side verdict code or 0)"""
+def gen_kernel_case(g, obs, link_terms=None):
+    """-> (Coq term, python-side verdict code or 0)
+
+    Also builds the term for Model.NumbaLink.check_numba_link (the hand model of numba_link's array building and
+    read-back against what this real call did: the three arrays handed to the kernel, the SubnetOversizeException
+    exits, the decoding of best_assignments).  With link_terms (a list) the term is appended for a batched
+    evaluation by the caller; without (replay) it is evaluated here and a non-zero verdict (61-65) is returned."""
+    GENK_CODES.update({61: 'harness: the observed iteration order of the candidate set is not a listing of the candidates',
+                  62: 'numba_link raised SubnetOversizeException where the model (Model/NumbaLink.v) does not: neither more than max_size '
+                      'sources nor a source with more than 9 forward candidates',
+                  63: 'numba_link returned where the model (Model/NumbaLink.v) raises (more than max_size sources, or a source with more than 9 '
+                      'forward candidates: C03_numba_link_raises_iff)',
+                  64: 'the arrays numba_link handed to its kernel (ncands / candsarray / distsarray**2, padding included) differ from the '
+                      "model's (Model/NumbaLink.v:nl_build) for the same sources and the same iteration order of the candidate set",
+                  65: "numba_link's destinations are not the model's decoding (dcands[i] if i >= 0 else None) of the best_assignments its kernel left"})     # verdicts of check_numba_link (replay prints them through GENK_CODES)
+    cZ, cl = common.cZ, common.clist
+    dk = lambda d: "None" if d is None else "(Some %s)" % cnat(d)
+    srcs_t = cl(["(%s, %s)" % (cnat(i), cl(["(Some %s, %s)" % (cnat(d), cZ(c)) for d, c in cs] + ["(None, %s)" % cZ(g['R2'])]))
+                 for i, cs in enumerate(g['srcs'])])
+    v1 = lambda a: cl([cZ(int(x)) for x in a])
+    f1 = lambda a: cl([cZ(exact_int(x)) for x in a])
+    m2 = lambda a, f: cl([cl([cZ(f(x)) for x in row]) for row in a])
+    if obs.get('raised'):
+        obs_t = "(@None ((list Z * list (list Z) * list (list Z)) * list Z * list (option nat)))"
+    elif len(obs['calls']) == 1:
+        b0, _, a0 = obs['calls'][0]
+        obs_t = "(Some ((%s, %s, %s), %s, %s))" % (v1(b0[0]), m2(b0[1], int), m2(b0[2], exact_int), v1(a0[6]), cl([dk(d) for d in obs['dests']]))
+    else:
+        obs_t = None
+    if obs_t is not None and 'dcands' in obs:
+        lterm = "((%s, %s, %s, %s, %s) : link_case)" % (srcs_t, cl([dk(d) for d in obs['dcands']]), cZ(g['R2']), cZ(int(g.get('max_size', 30))), obs_t)
+        if link_terms is not None:
+            link_terms.append(lterm)
+        elif os.path.exists(os.path.join(common.COQ, 'Model', 'NumbaLink.vo')):
+            import tempfile, types, shutil
+            tmpd = tempfile.mkdtemp(prefix='c03link')
+            try:
+                lcode = common.coq_eval_lists(types.SimpleNamespace(dir=tmpd), "From TP Require Import Model.Assign Model.NumbaLink.",
+                                              "check_numba_link", [lterm], tag='numbalink')[0]
+            finally:
+                shutil.rmtree(tmpd, ignore_errors=True)
+            if lcode:
+                return None, lcode
+    if obs.get('raised'):
+        # no kernel call to compare (the exception is what check_numba_link judges): a constant, valid kernel case
+        return ("([[(None, 1)]], [], ([1], [[-1; -1; -1; -1; -1; -1; -1; -1; -1]], [[1; 1; 1; 1; 1; 1; 1; 1; 1]], [-1], [0], [0], [-1]), "
+                "(1, [-1], [-1], [0], [0]))"), 0
     if len(obs['calls']) != 1 or not obs['same_order']:
         return None, 57
     before, lc, after = obs['calls'][0]
@@ -253,36 +309,58 @@ def gen_kernel_case(g, obs):
         want = None if int(b) < 0 else inv.get(int(b), 'unknown')
         if want != obs['dests'][j]:
             return None, 56
-    cZ, cl = common.cZ, common.clist
     A = cl([cl(["(Some %s, %s)" % (cnat(d), cZ(c)) for d, c in cs] + ["(None, %s)" % cZ(g['R2'])]) for cs in g['srcs']])
     tabt = cl(["(%s, %s)" % (cnat(d), cZ(z)) for d, z in sorted(tab.items())])
-    v1 = lambda a: cl([cZ(int(x)) for x in a])
-    f1 = lambda a: cl([cZ(exact_int(x)) for x in a])
-    m2 = lambda a, f: cl([cl([cZ(f(x)) for x in row]) for row in a])
     arrs = "(%s, %s, %s, %s, %s, %s, %s)" % (v1(ncands), m2(cands, int), m2(d2, exact_int), v1(cura), f1(sums), v1(tmp), v1(ba))
     res = "(%s, %s, %s, %s, %s)" % (cZ(int(lc)), v1(after[6]), v1(after[3]), f1(after[4]), v1(after[5]))
     return "(%s, %s, %s, %s)" % (A, tabt, arrs, res), 0
 
 
 def gen_kernel_harness(chk):
-    """executes Gen/numbakernel.v (when it builds) next to the real _numba_subnet_norecur (interpreted) inside the real numba_link"""
+    """executes Gen/numbakernel.v (when it builds) next to the real _numba_subnet_norecur (interpreted) inside the real numba_link,
+    and Model/NumbaLink.v (hand model of numba_link's array building, exception exits and read-back) next to that same call"""
     if not STATE.get('genk_ok'):
         chk.tally('generated _numba_subnet_norecur not executable (translation / build failed): generated-kernel harness skipped')
         return
+    link_ok = os.path.exists(os.path.join(common.COQ, 'Model', 'NumbaLink.vo'))
+    if not link_ok:
+        chk.tally('Model/NumbaLink.vo missing: numba_link array-building comparison skipped')
     n = 200 if chk.tier == 'quick' else 5000
-    terms, cases = [], []
-    for k in range(n):
+    terms, cases, lterms, lcases = [], [], [], []
+
+    def special(g):
+        """exception exits and their boundaries: a source with 8 / 9 / 10 real candidates, max_size = len or len - 1"""
+        kind = chk.rng.choice(['cap8', 'cap9', 'cap10', 'size', 'sizeok'])
+        if kind.startswith('cap'):
+            m = int(kind[3:])
+            g['nd'] = max(g['nd'], m + chk.rng.randint(0, 2))
+            R = math.isqrt(g['R2'])
+            ds = sorted(chk.rng.sample(range(g['nd']), m))
+            g['srcs'][chk.rng.randrange(len(g['srcs']))] = sorted([(d, chk.rng.choice([0, 1, 1, 2, 2, 3, R]) ** 2) for d in ds], key=lambda x: x[1])
+        else:
+            g['max_size'] = len(g['srcs']) - (1 if kind == 'size' else 0)
+        return kind
+
+    for k in range(n + n // 4):
         g = c02.gen_sq_graph(chk.rng, chk.tier)
         g['numba'] = True
+        kind = special(g) if k >= n else 'plain'
         try:
             obs = run_numba_kernel(g)
-            term, code = gen_kernel_case(g, obs)
+            lt = [] if link_ok else None
+            term, code = gen_kernel_case(g, obs, lt)
         except Exception as e:
             chk.violation('numba_link: exception', 'numba_link / _numba_subnet_norecur raised %r' % e, dict(kind='genkernel', graph=g)); continue
-        chk.tally('generated _numba_subnet_norecur vs real kernel inside numba_link')
+        chk.tally('generated _numba_subnet_norecur vs real kernel inside numba_link' if kind == 'plain' else
+                  'numba_link exception exits (%s): %s' % (kind, 'raised SubnetOversizeException' if obs['raised'] else 'returned'))
+        if lt:
+            lterms.append(lt[0]); lcases.append(g)
         if code:
             chk.count(('genkernel', g), len(g['srcs']) >= 3)
             chk.violation('generated numba kernel: %s' % GENK_CODES[code], 'numba_link: %s' % GENK_CODES[code], dict(kind='genkernel', code=code, graph=g))
+            continue
+        if obs['raised']:
+            chk.count(('genkernel', g), len(g['srcs']) >= 3)
             continue
         terms.append(term); cases.append(g)
     res = common.coq_eval_lists(chk.work, GENK_IMPORTS, GENK_FUNC, terms, tag='genkernel')
@@ -291,6 +369,17 @@ def gen_kernel_harness(chk):
         if r != 0:
             chk.violation('generated numba kernel: %s' % GENK_CODES.get(r, r), '_numba_subnet_norecur / Gen.numbakernel.py__numba_subnet_norecur: %s' % GENK_CODES.get(r, r),
                           dict(kind='genkernel', code=r, graph=g))
+    if lterms:
+        lres = common.coq_eval_lists(chk.work, "From TP Require Import Model.Assign Model.NumbaLink.", "check_numba_link", lterms, tag='numbalink')
+        for g, r in zip(lcases, lres):
+            chk.tally('numba_link array building / read-back vs Model/NumbaLink.v')
+            if r != 0:
+                chk.violation('numba_link model: %s' % GENK_CODES.get(r, r), 'numba_link / Model.NumbaLink.nl_build: %s' % GENK_CODES.get(r, r),
+                              dict(kind='genkernel', code=r, graph=g))
+        chk.coverage['numba_link arrays'] = ('every generated-kernel case, plus n/4 cases with a source of 8 / 9 / 10 real candidates or max_size = len / len - 1: '
+                                             'the three arrays the real numba_link passes to its kernel, its SubnetOversizeException exits and its decoding of '
+                                             'best_assignments are compared with Model/NumbaLink.v run on the same sources with the iteration order CPython gives '
+                                             'the candidate set of the same Point objects')
 
 
 def run_legacy(frames, sr, memory, neighbor, strategy):
